@@ -110,7 +110,12 @@ def matches(c):
 
 def shrink(c):
     a = list(c.args)
-    if c.op in ("compat", "refmuts"):
+    if c.op == "refmuts":
+        for j in range(len(a[1])):
+            if len(a[1]) > 1:
+                yield Case("refmuts", [a[0], a[1][:j] + a[1][j + 1:], a[2][:j] + a[2][j + 1:]])
+        return
+    if c.op == "compat":
         return
     rows = [] if a[1] == "_" else [tuple(r.split(":", 1)) for r in a[1].split(",")]
     for i in range(len(rows)):
